@@ -158,7 +158,7 @@ func (sn *snode) sinsert(topic []byte, qos byte, sub interface{}) error {
 	// If there's no more topic levels, that means we are at the matching snode
 	// to insert the subscriber. So let's see if there's such subscriber,
 	// if so, update it. Otherwise insert it.
-	if len(topic) == 0 {
+	if topic == nil {
 		// Let's see if the subscriber is already on the list. If yes, update
 		// QoS and then return.
 		for i := range sn.subs {
@@ -201,7 +201,7 @@ func (sn *snode) sinsert(topic []byte, qos byte, sub interface{}) error {
 func (sn *snode) sremove(topic []byte, sub interface{}) error {
 	// If the topic is empty, it means we are at the final matching snode. If so,
 	// let's find the matching subscribers and remove them.
-	if len(topic) == 0 {
+	if topic == nil {
 		// If subscriber == nil, then it's signal to remove ALL subscribers
 		if sub == nil {
 			sn.subs = sn.subs[0:0]
@@ -260,7 +260,7 @@ func (sn *snode) sremove(topic []byte, sub interface{}) error {
 func (sn *snode) smatch(topic []byte, qos byte, subs *[]interface{}, qoss *[]byte) error {
 	// If the topic is empty, it means we are at the final matching snode. If so,
 	// let's find the subscribers that match the qos and append them to the list.
-	if len(topic) == 0 {
+	if topic == nil {
 		sn.matchQos(qos, subs, qoss)
 		// The multi-level wildcard also matches its parent level: "sport/#"
 		// receives a publish to "sport" (MQTT-4.7.1-2).
@@ -310,7 +310,7 @@ func newRNode() *rnode {
 
 func (rn *rnode) rinsert(topic []byte, msg *message.PublishMessage) error {
 	// If there's no more topic levels, that means we are at the matching rnode.
-	if len(topic) == 0 {
+	if topic == nil {
 		// A previously stored message may have been handed out by Retained() and
 		// may still be in use by a subscriber's delivery, so it must not be
 		// rewritten in place: always store a fresh copy.
@@ -357,7 +357,7 @@ func (rn *rnode) rinsert(topic []byte, msg *message.PublishMessage) error {
 func (rn *rnode) rremove(topic []byte) error {
 	// If the topic is empty, it means we are at the final matching rnode. If so,
 	// let's remove the buffer and message.
-	if len(topic) == 0 {
+	if topic == nil {
 		rn.buf = nil
 		rn.msg = nil
 		return nil
@@ -400,7 +400,7 @@ func (rn *rnode) rremove(topic []byte) error {
 func (rn *rnode) rmatch(topic []byte, msgs *[]*message.PublishMessage) error {
 	// If the topic is empty, it means we are at the final matching rnode. If so,
 	// add the retained msg to the list.
-	if len(topic) == 0 {
+	if topic == nil {
 		if rn.msg != nil {
 			*msgs = append(*msgs, rn.msg)
 		}
@@ -504,7 +504,9 @@ func nextTopicLevel(topic []byte) ([]byte, []byte, error) {
 
 	// If we got here that means we didn't hit the separator along the way, so the
 	// topic is either empty, or does not contain a separator. Either way, we return
-	// the full topic
+	// the full topic. The nil remainder tells the callers that this was the last
+	// level; an empty (non-nil) remainder is returned for a trailing separator and
+	// stands for one more, empty level ("a/" has the levels "a" and "").
 	return topic, nil, nil
 }
 
